@@ -218,6 +218,11 @@ func TestEngineStaking(t *testing.T) {
 		bz, err := sk.ValidatorAddressCodec().StringToBytes(v.OperatorAddress)
 		require.NoError(t, err)
 		valAddr[101+i] = bz
+		if cons, err := v.GetConsAddr(); err == nil && bytes.Equal(cons, c.hdr.ProposerAddress) {
+			// the proposer of every block of this run: no generated operation targets it, so that no history empties and
+			// removes it (a chain whose proposer is not a validator is not a reachable state; EVM execution refuses to run there)
+			continue
+		}
 		valIDs = append(valIDs, 101+i)
 	}
 	{ // one validator is jailed (without slashing): the native messages accept it as a target, so must the precompile
@@ -1096,7 +1101,10 @@ func TestEngineStaking(t *testing.T) {
 			for _, v := range valIDs {
 				if r.Chance(2, 3) {
 					val, err := sk.GetValidator(base, valAddr[v])
-					require.NoError(t, err)
+					if err != nil { // the history emptied and removed this validator: nothing to allocate to
+						p.Count("validator-gone")
+						continue
+					}
 					rw := new(big.Int).Mul(new(big.Int).Div(one, big.NewInt(1000)), big.NewInt(int64(1+r.Intn(5000))))
 					coins := sdk.NewCoins(coin(rw))
 					require.NoError(t, bk.MintCoins(base, minttypes.ModuleName, coins))
